@@ -87,6 +87,10 @@ Definition jwk_set_kty (k : jwk) (t : jkty) : jwk := jwk_with_params k t (params
 Definition jwk_set_params (k : jwk) (p : jparams) : option jwk :=
   if jkty_eqb (j_kty k) (params_kty p) then Some (jwk_with_params k (j_kty k) p) else None.
 
+(* `*jwk.params_mut() = p`: the mutable accessor hands out the parameter value itself, so a whole-value assignment replaces the family
+   without touching kty (known finding K_params_mut) *)
+Definition jwk_params_mut_assign (k : jwk) (p : jparams) : jwk := jwk_with_params k (j_kty k) p.
+
 Definition jwk_is_public (k : jwk) : bool := params_is_public (j_params k).
 Definition jwk_is_private (k : jwk) : bool := params_is_private (j_params k).
 
